@@ -21,6 +21,10 @@ CLAIMED["C04"] = ("DESIGN.md#c04", "Lean theorems: add_duration = month-index ar
          "Lean 4 proof over add_duration/DateTime.add model + differential correspondence run")
 CLAIMED["C05"] = ("DESIGN.md#c05", "Lean theorems: Interval length = instant(end) - instant(start) for same-object/same-name/different zones and either fold on every well-formed zone table; in_* truncate toward zero; swap negates; absolute = magnitude outside the wall-order region (known finding F12, with Lean counterexample); correspondence ~8x10^4 ops x 2 backends; oracle = integer instants from the tz table, exact below 2^33 s, 64 us tolerance beyond",
          "Lean 4 proof over Interval.__new__ model + differential correspondence run")
+CLAIMED["C20"] = ("DESIGN.md#c20", "Lean theorems: Time.add/subtract = (t + delta) mod 86400e6 for all integer h/m/s/us of either sign (through the add_duration carry model), subtract inverts add, timedeltas with a day component rejected, diff signed/abs exact to the microsecond, closest/farthest by that distance; correspondence 6x10^5 ops x 2 backends; oracle = integer arithmetic mod 86400e6",
+         "Lean 4 proof over time-of-day model + differential correspondence run")
+CLAIMED["C16"] = ("DESIGN.md#c16", "Lean theorems on proleptic ordinals for every date and every n >= 1: next/previous nearest strictly later/earlier weekday, first_of/last_of/nth_of for month/quarter/year (the code's loops and monthcalendar lookups modelled literally), PendulumException iff the unit holds fewer than n; DateTime-level theorems through DTOps.create, partial where a constructed wall time is skipped (known finding F11 with Lean counterexamples); correspondence 1.5x10^5 ops x 2 backends over all zones; oracle = day-by-day scan with datetime.date",
+         "Lean 4 proof over weekday-navigation model + differential correspondence run")
 NA = {}
 def main():
     props = [json.loads(l) for l in open(os.path.join(ROOT, "properties.jsonl"))]
